@@ -1061,7 +1061,9 @@ MUTANTS = [
     ("loop_first_pass_phase_rules_only", _L, "                if is_first_linter_pass():\n                    # In order to compute",
      "                if False:\n                    # In order to compute"),                                                            # inv-entry[3.10], [3.11]
     ("loop_found_errors_replace_earlier", _L, "                        initial_linting_errors += linting_errors\n", "                        initial_linting_errors = linting_errors\n"),   # inv-preserve[3.3], [3.4], [3.14]
-    ("loop_skips_first_rule", _L, "                for crawler in progress_bar_crawler:\n", "                for crawler in progress_bar_crawler[1:]:\n"),   # inv-entry[3.10], [3.11]
+    ("loop_skips_first_rule", _L, "                    progress_bar_crawler.set_description(f\"rule {crawler.code}\")\n",
+     "                    if crawler is rule_pack.rules[0]:\n                        continue\n"
+     "                    progress_bar_crawler.set_description(f\"rule {crawler.code}\")\n"),                                      # inv-preserve[3.*]
     ("loop_lint_crawls_twice", _L, "                    if is_first_linter_pass():\n                        initial_linting_errors += linting_errors\n",
      "                    if is_first_linter_pass():\n                        initial_linting_errors += linting_errors\n                    if not fix:\n"
      "                        crawler.crawl(tree, dialect=config.get(\"dialect_obj\"), fix=fix, templated_file=templated_file, ignore_mask=ignore_mask, fname=fname, config=config)\n"),   # inv-preserve[3.13], [3.14]
